@@ -62,6 +62,9 @@ func init() {
 			v := items[len(items)-1]
 			in.Ghost[k] = items[:len(items)-1]
 			in.event("sync.Pool.Get reuses a pooled object")
+			if ifc, ok := v.(*Iface); ok && ifc != nil {
+				delete(in.Ghost, "poolreleased:"+ptrKey(ifc.V))
+			}
 			return v
 		}
 		pool := in.load(a[0]).(*StructV)
@@ -76,6 +79,10 @@ func init() {
 		k := "pool:" + ptrKey(a[0])
 		items, _ := in.Ghost[k].([]Value)
 		in.Ghost[k] = append(items, a[1])
+		// from now on the object belongs to whoever Gets it next: memory handed out from it before must not be used any more
+		if ifc, ok := a[1].(*Iface); ok && ifc != nil && ifc.T != nil {
+			in.Ghost["poolreleased:"+ptrKey(ifc.V)] = true
+		}
 		return nil
 	}
 }
@@ -148,6 +155,33 @@ func init() {
 			ne := append([]syncMapEntry{}, es[:i]...)
 			in.Ghost[mk] = append(ne, es[i+1:]...)
 		}
+		return nil
+	}
+}
+
+// notePooledView: bytes are being read through a slice that views a buffer already given back to a sync.Pool
+func (in *Interp) notePooledView(sb *SymBytes) {
+	if sb == nil || sb.Buf == nil || sb.Buf.Ghost == nil {
+		return
+	}
+	key, _ := sb.Buf.Ghost["viewof"].(string)
+	if key == "" {
+		return
+	}
+	if rel, _ := in.Ghost["poolreleased:"+key].(bool); rel {
+		in.Ghost["pool.use-after-put"] = intGhost(in, "pool.use-after-put") + 1
+		in.event("memory of a pooled buffer is read after the buffer was returned to its sync.Pool")
+	}
+}
+
+func init() {
+	intrinsics["vPoolUseAfterPut"] = func(in *Interp, fn *ssa.Function, a []Value) Value {
+		return smt.BV(uint64(intGhost(in, "pool.use-after-put")), 64)
+	}
+	// vConcurrently(n, body): symbolically the body runs once (sequential semantics); the native twin runs it from n
+	// goroutines repeatedly so that the race detector can confirm cross-goroutine sharing
+	intrinsics["vConcurrently"] = func(in *Interp, fn *ssa.Function, a []Value) Value {
+		in.CallValue(a[1], nil)
 		return nil
 	}
 }
